@@ -66,7 +66,8 @@ def gen_plan(seed, tier="quick", variant=None):
         kind = rng.choice(["plain", "plain", "wrapper"])
         log.append({"kind": kind, "magic": rng.choice([0, 1]), "n": rng.randint(1, 12 if thorough else 6),
                     "gap": rng.choice([0, 0, 0, 1, 3, 50]), "size": rng.choice([0, 5, 30, 120, 500, 1500 if thorough else 200]),
-                    "nullkey": rng.random() < 0.3, "nullval": rng.random() < 0.1, "nested": kind == "wrapper" and rng.random() < 0.15})
+                    "nullkey": rng.random() < 0.3, "nullval": rng.random() < 0.1, "nested": kind == "wrapper" and rng.random() < 0.15,
+                    "holes": kind == "wrapper" and rng.random() < 0.3})
     buf = rng.choice([64, 128, 256, 1024, 4096, 65536])
     maxbuf = rng.choice([None, None, buf, buf * 4, buf * 16, 2 ** 21])
     if maxbuf is not None and maxbuf < buf:
@@ -108,8 +109,8 @@ def gen_plan(seed, tier="quick", variant=None):
     ops = []
     proc = []
     for k in range(1, rng.choice([0, 1, 2, 4, 8]) + 1):
-        mode = rng.choice(["async", "async", "slow", "fail", "async_fail"])
-        if variant in ("recovery", "clean", "retry") and mode in ("fail", "async_fail"):
+        mode = rng.choice(["async", "async", "slow", "fail", "async_fail", "async_cancelled"])
+        if variant in ("recovery", "clean", "retry") and mode in ("fail", "async_fail", "async_cancelled"):
             mode = "async"
         proc.append({"n": rng.randint(1, 12), "mode": mode, "delay": round(rng.choice([0.0, 0.001, 0.02, 0.2]), 6)})
     for _ in range(rng.choice([0, 1, 1, 2, 3])):
@@ -217,8 +218,11 @@ def build_log(part, plan, rng):
     for seg in plan["log"]:
         off = max(off, part.leo) + seg["gap"]
         msgs = []
+        step = 0
         for i in range(seg["n"]):
-            o = off + i
+            if seg.get("holes") and i:
+                step += rng.choice([0, 1, 2])  # the log cleaner removed messages inside the wrapper: relative offsets have gaps
+            o = off + i + step
             key = None if seg["nullkey"] else b"k%d" % o
             val = None if (seg["nullval"] and key is not None) else _value(o, seg["size"])
             msgs.append(Msg(o, key, val, seg["magic"], 1600000000000 + i if seg["magic"] == 1 else None))
@@ -496,6 +500,11 @@ def _run(w, plan):
                 finish(False)
                 res.probe("processor_failed_async")
                 d.errback(RuntimeError("async processor failure injected at invocation %d" % k))
+            elif mode == "async_cancelled":
+                # the application's own work was cancelled (a watchdog, an inner operation): a failure like any other
+                finish(False)
+                res.probe("processor_failed_with_cancelled_error")
+                d.errback(CancelledError())
             else:
                 finish(True)
                 d.callback(None)
